@@ -568,16 +568,19 @@ class Node(
         if self.use_cache and not self.failed:
             # Only inputs that produced the current outputs may short-circuit a run
             self._cached_inputs = self.inputs.to_value_dict()
-        if self.parent is not None and self.parent.running:
+        parent_is_running = self.parent is not None and self.parent.running
+        if parent_is_running and emit_ran_signal:
+            # Enqueue our signals _before_ un-registering: a parent polling from another
+            # thread stops waiting once it sees neither running children nor queued
+            # signals, and must not observe that state in between
+            self.parent.register_child_emitting(self)
+        if parent_is_running:
             self.parent.register_child_finished(self)
         if self.checkpoint is not None:
             self.save_checkpoint(self.checkpoint)
 
-        if emit_ran_signal:
-            if self.parent is None or not self.parent.running:
-                self.emit()
-            else:
-                self.parent.register_child_emitting(self)
+        if emit_ran_signal and not parent_is_running:
+            self.emit()
 
         if (
             self.failed
